@@ -12,6 +12,10 @@
 (* it.  This is the composition of the per-module specifications: what one *)
 (* call produces is what the next one consumes.                            *)
 (*                                                                         *)
+(* With tally pools (ONEAudit) the workflow starts with the padding step    *)
+(* pool_contests / add_pool_contests and sets the pool means before the    *)
+(* margins; a pooled CVR is then scored by its pool's mean.                *)
+(*                                                                         *)
 (* Contests are plurality contests with candidates W (reported winner), L, *)
 (* X; each has the assertions "W v L" and "W v X".  A card's vote in a     *)
 (* contest is "W", "L", "X" or "none"; a manual record may also be         *)
@@ -24,8 +28,8 @@ Sa == INSTANCE Sampling
 
 TraceRecs == ndJsonDeserialize(IOEnv.TRACE_FILE)
 NRec == Len(TraceRecs)
-VARIABLES i, cons, styles, phantom, votes, margin, order, thr, sel, data, risk, proved, nround
-tvars == <<i, cons, styles, phantom, votes, margin, order, thr, sel, data, risk, proved, nround>>
+VARIABLES i, cons, styles, phantom, pool, votes, margin, order, thr, sel, data, risk, proved, nround
+tvars == <<i, cons, styles, phantom, pool, votes, margin, order, thr, sel, data, risk, proved, nround>>
 
 Tol == RParse("1/1000000000")
 IsNum(s) == s \notin {"nan", "inf", "-inf", "exc"}
@@ -45,19 +49,28 @@ MarginOf(sty, vts, c, a) ==
     LET L == {k \in 1..Len(sty) : c \in sty[k]}
         vals == [k \in 1..Len(sty) |-> IF k \in L THEN Val(a, vts[k][c]) ELSE Zero]
     IN  RSub(RMul(RNat(2), RDiv(RSumSeq(vals, Len(sty)), RNat(Cardinality(L)))), One)
+\* ONEAudit: the CVRs of a tally pool stand for the pool's mean; before anything else every pooled CVR of a pool is made
+\* to list every contest some pooled CVR of that pool lists (CVR.pool_contests / add_pool_contests)
+PadStyles(sty, pl) ==
+    [k \in 1..Len(sty) |-> IF pl[k] = "none" THEN sty[k] ELSE UNION {sty[j] : j \in {j \in 1..Len(sty) : pl[j] = pl[k]}}]
+PoolCards(c, p) == {k \in 1..Len(styles) : pool[k] = p /\ c \in styles[k]}
+PoolMeanOf(c, a, p) ==
+    LET vals == [k \in 1..Len(styles) |-> IF k \in PoolCards(c, p) THEN Val(a, votes[k][c]) ELSE Zero]
+    IN  RDiv(RSumSeq(vals, Len(styles)), RNat(Cardinality(PoolCards(c, p))))
 \* overstatement assorter of card k for (c, a) given what the manual record shows (assorter bound 1)
 BVal(c, a, k, mv) ==
-    LET cv == IF phantom[k] THEN Half ELSE Val(a, votes[k][c])
+    LET cv == IF pool[k] # "none" THEN PoolMeanOf(c, a, pool[k]) ELSE IF phantom[k] THEN Half ELSE Val(a, votes[k][c])
         mm == IF mv \in {"unfound", "missing"} THEN Zero ELSE Val(a, mv)
     IN  RDiv(RSub(One, RSub(cv, mm)), RSub(RNat(2), margin[c][a]))
 
-TraceInit == /\ i = 1 /\ cons = <<>> /\ styles = <<>> /\ phantom = <<>> /\ votes = <<>> /\ margin = <<>> /\ order = <<>>
+TraceInit == /\ i = 1 /\ cons = <<>> /\ styles = <<>> /\ phantom = <<>> /\ pool = <<>> /\ votes = <<>> /\ margin = <<>> /\ order = <<>>
              /\ thr = <<>> /\ sel = <<>> /\ data = <<>> /\ risk = <<>> /\ proved = <<>> /\ nround = 0
 
 EvPhantoms(e) ==
     /\ e.act = "phantoms"
     /\ LET cs == e.cons
-           cv == [k \in 1..Len(e.styles) |-> ToSet(e.styles[k])]
+           raw == [k \in 1..Len(e.styles) |-> ToSet(e.styles[k])]
+           cv == IF e.padded THEN PadStyles(raw, e.pools) ELSE raw
            want == Ph!Final(cs, cv, e.bounds, e.maxCards, TRUE)
            o == e.out
            got == [k \in 1..Len(o.styles) |-> ToSet(o.styles[k])]
@@ -69,6 +82,8 @@ EvPhantoms(e) ==
            /\ cons' = cs
            /\ styles' = IF "exc" \in DOMAIN e THEN cv ELSE got
            /\ phantom' = IF "exc" \in DOMAIN e THEN [k \in 1..Len(cv) |-> FALSE] ELSE o.phantom
+           /\ pool' = IF "exc" \in DOMAIN e THEN e.pools
+                       ELSE [k \in 1..Len(got) |-> IF k <= Len(e.pools) THEN e.pools[k] ELSE "none"]
            /\ votes' = e.votes              \* per card: contest -> vote (phantoms: "none")
            /\ order' = IdxSeq(e.order)
     /\ margin' = <<>> /\ thr' = [c \in ToSet(e.cons) |-> 0] /\ sel' = <<>>
@@ -83,9 +98,12 @@ EvMargins(e) ==
        IN  /\ Report(e, IF "exc" \in DOMAIN e THEN {"exc:" \o e.exc.type \o "@" \o e.exc.site}
                         ELSE (IF \A c \in ToSet(cons) : \A a \in Asns : Close(o.margin[c][a], want[c][a]) THEN {} ELSE {"margins:margin"})
                              \cup (IF \A c \in ToSet(cons) : \A a \in Asns :
-                                        Close(o.u[c][a], RDiv(RNat(2), RSub(RNat(2), want[c][a]))) THEN {} ELSE {"margins:bound"}))
+                                        Close(o.u[c][a], RDiv(RNat(2), RSub(RNat(2), want[c][a]))) THEN {} ELSE {"margins:bound"})
+                             \cup (IF \A c \in ToSet(cons) : \A a \in Asns : \A p \in DOMAIN o.pool_means[c][a] :
+                                        PoolCards(c, p) # {} => Close(o.pool_means[c][a][p], PoolMeanOf(c, a, p))
+                                   THEN {} ELSE {"margins:pool_mean"}))
            /\ margin' = want
-    /\ UNCHANGED <<cons, styles, phantom, votes, order, thr, sel, data, risk, proved, nround>>
+    /\ UNCHANGED <<cons, styles, phantom, pool, votes, order, thr, sel, data, risk, proved, nround>>
 
 EvRound(e) ==
     /\ e.act = "round"
@@ -122,14 +140,14 @@ EvRound(e) ==
                    /\ risk' = [c \in ToSet(cons) |-> [a \in Asns |-> IF IsNum(o.p[c][a]) THEN RParse(o.p[c][a]) ELSE risk[c][a]]]
                    /\ proved' = [c \in ToSet(cons) |-> [a \in Asns |-> o.proved[c][a]]]
     /\ nround' = nround + 1
-    /\ UNCHANGED <<cons, styles, phantom, votes, margin, order>>
+    /\ UNCHANGED <<cons, styles, phantom, pool, votes, margin, order>>
 
 TraceNext ==
     \/ /\ i <= NRec
        /\ LET e == TraceRecs[i] IN EvPhantoms(e) \/ EvMargins(e) \/ EvRound(e)
        /\ i' = i + 1
     \/ /\ i = NRec + 1 /\ PrintT("ACC " \o ToString(NRec)) /\ i' = i + 1
-       /\ UNCHANGED <<cons, styles, phantom, votes, margin, order, thr, sel, data, risk, proved, nround>>
+       /\ UNCHANGED <<cons, styles, phantom, pool, votes, margin, order, thr, sel, data, risk, proved, nround>>
 TraceSpec == TraceInit /\ [][TraceNext]_tvars
 TraceAccepted == TLCGet("stats").diameter = NRec + 2
 =============================================================================
